@@ -205,7 +205,7 @@ CLAIMS = {
              'model, so the clauses are unconditional there; the assumption failing on deeper direct/regular vines is a '
              'recorded finding (two classes, kernel-checked counter-example built by the construction model); statistical '
              'agreement for two-column tables only in deep search',
-        tech='Lean 4 proof over a hand-written plan-term model + bit-exact plan interpretation on real fitted vines',
+        tech='Lean 4 proof over a hand-written plan-term model + the index data flow of tree.py/vine.py (edge inputs, child edges, likelihood cells, _sample_row conditions) regenerated from the source by gen_vineflow and proved equal to the model in Props/C17c (18 bridges; theorems and both findings restated over the generated code) + bit-exact plan interpretation on real fitted vines',
         ref='5 C17'),
     'C01': dict(
         text='Lean 4 theorems about a model of GaussianMultivariate.fit/sample: output labels = training labels in order and n '
